@@ -8,6 +8,7 @@
 
 mod common;
 mod gen;
+mod guard;
 mod ops;
 
 use std::io::{BufRead, Write};
@@ -27,20 +28,43 @@ fn main() {
             let tier = args.get(3).map(|s| s.as_str()).unwrap_or("quick");
             let seed: u64 = args.get(4).and_then(|s| s.parse().ok()).unwrap_or(1);
             let lines = gen::generate(suite, tier, seed);
-            let results = common::par_map(&lines, |l| ops::eval_line(l));
+            // suites that call into unmodelled (and possibly non-terminating) code run their lines in killable
+            // child processes with a per-line watchdog
+            let results = if gen::guarded(suite) {
+                guard::eval_guarded(&lines)
+            } else {
+                common::par_map(&lines, |l| ops::eval_line(l))
+            };
             for (l, r) in lines.iter().zip(results.iter()) {
                 writeln!(out, "{}\t{}", l, r).unwrap();
             }
         }
-        "eval" => {
+        "eval-stream" => {
+            // child of the guarded evaluator: one result per line, flushed immediately
             let stdin = std::io::stdin();
             for line in stdin.lock().lines() {
                 let line = line.unwrap();
-                let l = line.split('\t').next().unwrap().trim();
-                if l.is_empty() {
-                    continue;
-                }
-                writeln!(out, "{}\t{}", l, ops::eval_line(l)).unwrap();
+                let r = ops::eval_line(line.trim());
+                writeln!(out, "{r}").unwrap();
+                out.flush().unwrap();
+            }
+        }
+        "eval" => {
+            let stdin = std::io::stdin();
+            let lines: Vec<String> = stdin
+                .lock()
+                .lines()
+                .map(|l| l.unwrap().split('\t').next().unwrap().trim().to_string())
+                .filter(|l| !l.is_empty())
+                .collect();
+            // sweep lines may not return: evaluate them under the watchdog
+            let results = if lines.iter().any(|l| l.starts_with("sw_")) {
+                guard::eval_guarded(&lines)
+            } else {
+                lines.iter().map(|l| ops::eval_line(l)).collect()
+            };
+            for (l, r) in lines.iter().zip(results.iter()) {
+                writeln!(out, "{}\t{}", l, r).unwrap();
             }
         }
         other => {
